@@ -163,6 +163,15 @@ class Ctx:
     def judge(self, rejected, pid=None):
         pid = pid or self.pid
         for e, clause in rejected:
+            if clause.startswith("drift:"):
+                # differs from the model but the property's own predicate holds
+                self.drift += 1
+                self.drift_kinds = getattr(self, "drift_kinds", {})
+                self.drift_kinds[clause] = self.drift_kinds.get(clause, 0) + 1
+                self.validated += 1
+                continue
+            if clause.startswith("oracle:") or clause == "unknown_fn":
+                raise tlc.MachineryError("spec self-check failed: %s on event %r" % (clause, e))
             hit = findings.match(pid, e, clause)
             if hit is not None:
                 self.known_hits.setdefault(hit["id"], {"finding": hit, "count": 0, "example": e})["count"] += 1
@@ -184,6 +193,8 @@ class Ctx:
         for hid, h in sorted(self.known_hits.items()):
             print("KNOWN-FINDING: property=%s %s [%s] (%d failing cases this run)" % (
                 self.pid, h["finding"]["what"], hid, h["count"]))
+        for k, n in sorted(getattr(self, "drift_kinds", {}).items()):
+            print("MODEL-DRIFT: property=%s %s (%d events; property predicate holds, model differs)" % (self.pid, k, n))
         code = 0
         mine = [v for v in self.violations]
         if mine:
